@@ -67,13 +67,15 @@ var repoint = map[string][2]string{
 	"os/exec":       {"simshim/simexec", "exec"},
 	"io/ioutil":     {"simshim/simioutil", "ioutil"},
 	"path/filepath": {"simshim/simfilepath", "filepath"},
+	// not used by the tree today; a change may introduce it (a lock held across a file or process operation)
+	"sync": {"simshim/simsync", "sync"},
 }
 
 var watch = []string{"syscall", "golang.org/x/sys", "net", "os/signal", "unsafe"}
 
 // rewriteImports re-points the imports of every non-test Go file under root.
 // It returns the number of files changed and the list of unshimmed APIs seen.
-func rewriteImports(root string) (int, []string, error) {
+func rewriteImports(root string, skip ...string) (int, []string, error) {
 	changed := 0
 	seen := map[string]bool{}
 	err := filepath.WalkDir(root, func(p string, d fs.DirEntry, err error) error {
@@ -104,6 +106,11 @@ func rewriteImports(root string) (int, []string, error) {
 				}
 			}
 			to, ok := repoint[path]
+			for _, sk := range skip {
+				if sk == path {
+					ok = false
+				}
+			}
 			if !ok {
 				continue
 			}
@@ -111,6 +118,12 @@ func rewriteImports(root string) (int, []string, error) {
 			if imp.Name == nil {
 				imp.Name = ast.NewIdent(to[1])
 			}
+			dirty = true
+		}
+		if len(skip) == 0 && rewriteGoStmts(f) {
+			// go statements (the tree has none today; a change may introduce them) start simulated tasks
+			f.Imports = append(f.Imports, &ast.ImportSpec{Name: ast.NewIdent("simrt"), Path: &ast.BasicLit{Kind: token.STRING, Value: strconv.Quote("simshim/rt")}})
+			f.Decls = append([]ast.Decl{&ast.GenDecl{Tok: token.IMPORT, Specs: []ast.Spec{f.Imports[len(f.Imports)-1]}}}, f.Decls...)
 			dirty = true
 		}
 		if !dirty {
@@ -128,4 +141,66 @@ func rewriteImports(root string) (int, []string, error) {
 		list = append(list, k)
 	}
 	return changed, list, err
+}
+
+// rewriteGoStmts replaces every `go f(args)` of a file by `simrt.Spawn(func() { f(args) })`, evaluating plain
+// variable-like arguments at the statement as the go statement would (other arguments - literals, calls - are
+// evaluated when the goroutine starts, which is the one liberty taken). It reports whether anything changed.
+func rewriteGoStmts(f *ast.File) bool {
+	changed := false
+	n := 0
+	repl := func(st ast.Stmt) ast.Stmt {
+		g, ok := st.(*ast.GoStmt)
+		if !ok {
+			return st
+		}
+		changed = true
+		call := *g.Call
+		var lhs, rhs []ast.Expr
+		args := make([]ast.Expr, len(call.Args))
+		for i, a := range call.Args {
+			pre := false
+			switch x := a.(type) {
+			case *ast.Ident:
+				pre = x.Name != "nil" && x.Name != "true" && x.Name != "false" && x.Name != "iota"
+			case *ast.SelectorExpr, *ast.IndexExpr, *ast.StarExpr:
+				pre = true
+			case *ast.UnaryExpr:
+				pre = x.Op == token.AND
+			}
+			if pre {
+				n++
+				id := ast.NewIdent(fmt.Sprintf("_simgo%d", n))
+				lhs, rhs, args[i] = append(lhs, id), append(rhs, a), id
+			} else {
+				args[i] = a
+			}
+		}
+		call.Args = args
+		spawn := &ast.ExprStmt{X: &ast.CallExpr{Fun: &ast.SelectorExpr{X: ast.NewIdent("simrt"), Sel: ast.NewIdent("Spawn")},
+			Args: []ast.Expr{&ast.FuncLit{Type: &ast.FuncType{Params: &ast.FieldList{}}, Body: &ast.BlockStmt{List: []ast.Stmt{&ast.ExprStmt{X: &call}}}}}}}
+		if len(lhs) == 0 {
+			return spawn
+		}
+		return &ast.BlockStmt{List: []ast.Stmt{&ast.AssignStmt{Lhs: lhs, Tok: token.DEFINE, Rhs: rhs}, spawn}}
+	}
+	list := func(l []ast.Stmt) {
+		for i := range l {
+			l[i] = repl(l[i])
+		}
+	}
+	ast.Inspect(f, func(nd ast.Node) bool {
+		switch x := nd.(type) {
+		case *ast.BlockStmt:
+			list(x.List)
+		case *ast.CaseClause:
+			list(x.Body)
+		case *ast.CommClause:
+			list(x.Body)
+		case *ast.LabeledStmt:
+			x.Stmt = repl(x.Stmt)
+		}
+		return true
+	})
+	return changed
 }
